@@ -22,8 +22,8 @@ ASSUMPTIONS = ["reference signer and serializer"]
 
 
 def plan(tier, seed):
-    n = 72 if tier == "quick" else 1600
-    shards = 8 if tier == "quick" else 16
+    n = 240 if tier == "quick" else 6400
+    shards = 12 if tier == "quick" else 32
     return [{"kind": "docs", "count": n // shards} for _ in range(shards)]
 
 
